@@ -6,7 +6,10 @@
 // std::collections::BTreeMap (view = Map<i64, V>; new / insert / get / remove / contains_key / is_empty /
 // iter with its ghost sequence "all entries, no duplicates, keys increasing").
 //
-// The three functions below are the targets of the declared R9 substitutions of contracts/mem_region.vc.
+// The R9 substitutions of `retain(F)` (clear_top_values) and of the `values_mut()` loop (mark_all_values_as_top) have NO target
+// here: they are written with get_mut / remove (vstd) over the key list `verif_mr_keys`, which is verified glue in
+// contracts/mem_region.vc (body checked against vstd's BTreeMap::iter).
+// The three functions below are the targets of the declared R9 substitutions of `range` in contracts/mem_region.vc.
 // Each one is `BTreeMap::range(<R>)` followed by the consumer named in its doc comment; the range
 // BOUNDS are arguments (pattern holes), so a changed bound in /repo flows into the call and is verified.
 // std documentation of `BTreeMap::range`: "Constructs a double-ended iterator over a sub-range of
